@@ -115,7 +115,16 @@ def _materialise(desc):
         d = {k: d[k] for k in ("pressure", "compressibility", "viscosity")}
     if desc["drop"] and desc["drop"] in d:
         del d[desc["drop"]]
-    return pd.DataFrame(d) if desc["as"] == "df" else d
+    if desc["as"] != "df":
+        return d
+    df = pd.DataFrame(d)
+    v = int(desc["u"][5] * 4)
+    if v == 1:
+        df.index = np.arange(len(df))[::-1] * 10 + 7  # any other (unique) labelling of the rows
+    elif v == 2:
+        df["temperature"] = 200.0
+        df["comment"] = "lab"  # columns the wrapper does not know about
+    return df
 
 
 def _p_i(desc, p):
@@ -270,7 +279,7 @@ def run_case(ck, desc):
     # compressibility / viscosity, wrapped right afterwards in the same process: its diffusivity is
     # ITS OWN 1/(c mu)
     if branch in ("long", "simple"):
-        twin = {k: np.array(tab[k], dtype=float) for k in (tab.columns if isinstance(tab, pd.DataFrame) else tab)}
+        twin = {k: np.array(tab[k], dtype=float) for k in (tab.columns if isinstance(tab, pd.DataFrame) else tab) if k in need or k in ("density", "pseudopressure", "z-factor")}
         twin["compressibility"] = twin["compressibility"] * 1.37
         twin["viscosity"] = twin["viscosity"] * np.linspace(0.8, 1.1, len(twin["viscosity"]))
         twin_arg = pd.DataFrame(twin) if desc["as"] == "df" else twin
